@@ -800,7 +800,12 @@ class Interp:
 
     def s_With(self, s, frame):
         if len(s.items) != 1:
-            raise Unsupported("with: multiple items")
+            # `with a, b: body`  ==  `with a: with b: body`
+            inner = ast.With(items=s.items[1:], body=s.body)
+            ast.copy_location(inner, s)
+            outer = ast.With(items=[s.items[0]], body=[inner])
+            ast.copy_location(outer, s)
+            return (yield from self.s_With(outer, frame))
         item = s.items[0]
         mgr = self.geval(item.context_expr, frame)
         enter = self.getattr_(mgr, "__enter__")
